@@ -158,3 +158,5 @@ Example c06_wrapped_witness :
   ([OOk 3; OErr 3%N; OOk 1; OOk 0; OOk 2; OOk 0; OOk 0; OOk 1],
    [[1;2;3;10]; [1;2;3;10;4;10]; [5;6;10]; [7;10]]%N, [WErr 3%N; WOk; WOk; WOk], [0; 2; 4; 7]).
 Proof. vm_compute. reflexivity. Qed.
+
+(* Note after the second read-only review of these pins (selftest/audit/REVIEW-2-2026-10-02.md): the c06_wrapped_* pins and c06_flush_routes hold by construction of AuditS.client_flush / queuing_flush, which model the two wrappers as plain delegation to the wrapped sink's flush (what client.rs / queuing.rs do): they record that modelling decision - a model in which a wrapper did anything else would break them - and add no content beyond c06_ack / c06_once_in_order / c06_flush_point / c06_flush_idem.  That the real wrappers delegate is what harness families CW and QF check.  c06_zero_line_emit speaks about the empty terminator only, which no sink of the crate uses (ext::MultiLineWriter::with_ending can). *)
